@@ -18,7 +18,7 @@ LEVEL = "exploration"
 RULE = (
     "captured: pre/post optimisation graphs of G's cases (all families, numpy backends); enumerated: all ordered pairs of permutations up to rank 4 (quick) / 5 (thorough) as "
     "transpose chains with and without a second consumer of the intermediate and with distinct and equal axis lengths, all ordered pairs of factorisations of 12/16/24 as reshape chains, "
-    "random mixes (length <= 5) of transpose/reshape/broadcast_to/concatenate incl. no-op members, wrapper graphs for InlineGraph; distinct by (chain description); non-trivial if the "
+    "random mixes (length <= 5) of transpose/reshape/broadcast_to/concatenate incl. no-op members, wrapper graphs for InlineGraph (every argument sequence of length 1-3 over 1-3 graph inputs x 7 non-commutative functions x {plain, keyword, literal argument}); distinct by (chain description); non-trivial if the "
     "optimiser changed the graph"
 )
 ASSUMPTIONS = ["the IR interpreter I defines what a graph computes", "inputs with distinct values; both all-distinct and all-equal axis lengths are used so that permutation mistakes show in shapes or in values"]
@@ -263,7 +263,41 @@ def run(spec, out):
             else:
                 steps.append(("cast", None))
         run_chain(shape, steps, rng.random() < 0.3, "mix")
-    # wrapper graphs (InlineGraph)
+    # wrapper graphs (InlineGraph), enumerated: op(i0..ik) = f(args) for every argument sequence of length 1-3 over 1-3 graph inputs
+    # (in order, permuted, repeated, subsets), non-commutative f, with / without keyword and constant arguments
+    P = tracer.signature.python
+    npmod = P.import_("numpy", as_="np")
+    FUNCS = [("subtract", lambda: npmod.subtract, 2), ("divide", lambda: npmod.divide, 2), ("where", lambda: npmod.where, 3), ("negative", lambda: npmod.negative, 1),
+             ("const2", lambda: P.constant(lambda a, b: a * 2 + b), 2), ("const3", lambda: P.constant(lambda a, b, c: a * 4 + b * 2 + c), 3), ("const1", lambda: P.constant(lambda a: a + 1), 1)]
+    k = 0
+    for nin in (1, 2, 3):
+        for fname, mk, arity in FUNCS:
+            for argidx in itertools.product(range(nin), repeat=arity):
+                for extra in ("none", "kwarg", "literal"):
+                    k += 1
+                    if k % spec["parts"] != spec["part"]:
+                        continue
+                    if extra != "none" and fname not in ("subtract", "const2"):
+                        continue
+                    xs = [T(None, (2, 3)) for _ in range(nin)]
+                    args = [xs[j] for j in argidx]
+                    kwargs = {}
+                    if extra == "kwarg" and fname == "subtract":
+                        kwargs = {"dtype": "float64"}
+                    elif extra == "kwarg":
+                        continue
+                    if extra == "literal":
+                        args = args[:-1] + [3.0]
+                    try:
+                        g = tracer.Graph(xs, P.call(mk(), args, kwargs), name="op")
+                        g2 = tracer.optimize(g, opts)
+                    except Exception:  # noqa
+                        out.count("wrapper_build_failed")
+                        continue
+                    wit = {"function": fname, "graph_inputs": nin, "call_arguments": list(argidx), "extra": extra}
+                    ch = compare_graphs(g, g2, lambda nin=nin: [data((2, 3)) * (j + 1) + j for j in range(nin)], out, "wrapper", wit, optimizations=opts)
+                    out.count("wrapper_inlined" if ch else "wrapper_kept")
+                    out.distinct_key(f"wrapper|{fname}|{nin}|{argidx}|{extra}")
     for dep in (False, True):
         x = T(None, (2, 3))
         f = tracer.signature.python.import_("numpy", as_="np").negative if not dep else tracer.signature.python.call(tracer.signature.python.constant(lambda t: (lambda u: u * t.shape[0])), [x])
@@ -274,8 +308,8 @@ def run(spec, out):
 
 def finalize(agg, tier, seed):
     c = agg.counters
-    for k in ("pre_equals_post:captured", "pre_equals_post:transpose-pair", "pre_equals_post:reshape-pair", "pre_equals_post:mix", "optimiser_changed_graph", "fixed_point"):
-        if c.get(k, 0) < 50:
+    for k in ("pre_equals_post:captured", "pre_equals_post:transpose-pair", "pre_equals_post:reshape-pair", "pre_equals_post:mix", "optimiser_changed_graph", "fixed_point", "pre_equals_post:wrapper", "wrapper_inlined", "wrapper_kept"):
+        if c.get(k, 0) < (50 if "wrapper_" not in k else 5):
             agg.inconclusive.append(f"monitor counter {k} = {c.get(k, 0)}")
     maxrank = 4 if tier == "quick" else 5
     exp = sum(math.factorial(r) ** 2 for r in range(1, maxrank + 1)) * 16
